@@ -1,10 +1,16 @@
 """K6 - the recursive segment search of group finding (C08): _get_segment_reference"""
 from contracts import contract
 
-# reach(node, name): `name` is a SEG child of node, or reach(g.ref, name) for a GRP child g  (spec function `reach`,
-# defined by its unfolding axiom in vocab.py).  The result is None exactly when the top of the stack cannot reach the
-# segment; the stack is then restored; otherwise the stack only grows by a chain of declared GRP children whose last
-# element declares the segment, and the returned reference is that declaration's.
+# The stack `parents_ref` holds (name, reference) pairs; its top is searched for a SEG child called segment_name, then -
+# only when no such direct child exists - the GRP children are tried in declaration order, each pushed while it is
+# searched and popped when the search below it fails.
+#   * a direct SEG child wins: the result is exactly the first such entry's reference, the stack is untouched;
+#   * result None  => the stack is restored (same object, same length, same items);
+#   * result found => the stack only grew, the old items are kept, every new entry restates a GRP child of the entry
+#     below it (declares_grp), and the reference returned is that of the first SEG child called segment_name of the
+#     new top (so: every element of the chain is a declared child of its parent - C08).
+# Termination (the recursion follows the finite nesting of the structure) is NOT proved: partial correctness.
+TOP = 'stack_ref(parents_ref, len(parents_ref) - 1)'
 contract(
     'hl7apy.parser:_get_segment_reference',
     sig={'segment_name': 'str', 'parents_ref': 'list[tuple[any,RefStruct]]'},
@@ -12,10 +18,14 @@ contract(
     requires=['len(parents_ref) >= 1'],
     ensures=[
         ('same_stack_object', 'result[1] is parents_ref'),
+        ('direct_child_wins', 'implies(old(seg_idx(%s, segment_name)) >= 0, '
+                              'len(parents_ref) == old(len(parents_ref)) and '
+                              'result[0] is old(entry_ref(child_entry(%s, seg_idx(%s, segment_name)))))' % (TOP, TOP, TOP)),
         ('not_found_restores', 'implies(result[0] is None, len(parents_ref) == old(len(parents_ref)))'),
         ('found_grows_only', 'implies(result[0] is not None, len(parents_ref) >= old(len(parents_ref)))'),
         ('prefix_kept', 'all(stack_item(parents_ref, k) is old(stack_item(parents_ref, k)) for k in range(old(len(parents_ref))))'),
-        ('found_is_declared', 'implies(result[0] is not None, declares_seg(stack_ref(parents_ref, len(parents_ref) - 1), segment_name, result[0]))'),
+        ('found_is_declared', 'implies(result[0] is not None, seg_idx(%s, segment_name) >= 0 and '
+                              'result[0] is entry_ref(child_entry(%s, seg_idx(%s, segment_name))))' % (TOP, TOP, TOP)),
         ('chain_is_declared', 'all(declares_grp(stack_ref(parents_ref, k - 1), stack_item(parents_ref, k)) '
                               'for k in range(old(len(parents_ref)), len(parents_ref)))'),
     ],
@@ -25,18 +35,24 @@ contract(
     loops={
         0: {'header': 'for c in p_ref[1]',
             'inv': [('ref_none', 'ref is None'),
-                    ('stack_untouched', 'len(parents_ref) == old(len(parents_ref)) and '
-                                        'all(stack_item(parents_ref, k) is old(stack_item(parents_ref, k)) for k in range(old(len(parents_ref))))'),
-                    ('groups_declared', 'all(entry_kind(groups[k]) == "GRP" and is_child_entry(p_ref, groups[k]) for k in range(len(groups)))')],
-            'vars': {'groups': 'list[ChildEntry]', 'ref': 'RefStruct?'}},
+                    ('no_direct_hit_so_far', 'seg_idx(p_ref, segment_name) == -1 or seg_idx(p_ref, segment_name) >= _i'),
+                    ('groups_declared', 'all(entry_kind(list_at(groups, k)) == "GRP" and is_child_entry(p_ref, list_at(groups, k)) '
+                                        'and declares_grp_entry(p_ref, list_at(groups, k)) '
+                                        'for k in range(len(groups)))')],
+            'vars': {'ref': 'RefStruct?'},
+            'modifies': ['groups[]']},
         1: {'header': 'for g in groups',
             'inv': [('ref_none', 'ref is None'),
-                    ('stack_untouched', 'len(parents_ref) == old(len(parents_ref)) and '
-                                        'all(stack_item(parents_ref, k) is old(stack_item(parents_ref, k)) for k in range(old(len(parents_ref))))')],
-            'vars': {'ref': 'RefStruct?', 'parents_ref': 'list[tuple[any,RefStruct]]'}},
+                    ('same_stack', 'parents_ref is old(parents_ref)'),
+                    ('stack_restored', 'len(parents_ref) == old(len(parents_ref))'),
+                    ('prefix_kept', 'all(stack_item(parents_ref, k) is old(stack_item(parents_ref, k)) for k in range(old(len(parents_ref))))')],
+            'vars': {'ref': 'RefStruct?', 'parents_ref': 'list[tuple[any,RefStruct]]'},
+            'modifies': ['parents_ref[]'], 'allocates': ['La.V', 'Ll']},
     },
     local_types={'groups': 'list[ChildEntry]'},
     allocates=['La.V', 'Ll'],
-    properties=[],     # not run yet: the loop frames need per-array havoc lists (DESIGN 8); the AST ownership pass and the
-                       # bounded group driver cover this function meanwhile
+    properties=['C08', 'C03'],
+    notes='partial correctness (termination of the recursion over the finite structure nesting is not proved); the data '
+          'invariants of the structure tables (reference arity 2 or 6, GRP entries carry a reference) are assumed here and '
+          'checked row by row by the ground table passes',
 )
